@@ -390,9 +390,13 @@ def check_r2(prop, tier, seed, spec):
         mt = re.search(r'<<"TOPONLY", (\d+)>>', out)
         if mt:
             path_cov.update(add_back_visible_in_top_limb_only=int(mt.group(1)))
+        mw = re.search(r'<<"REMWIDE", (\d+), (\d+), (\d+)>>', out)
+        if mw:
+            path_cov.update(wide_remainders_evaluated=int(mw.group(1)), wide_remainders_with_add_back=int(mw.group(2)), wide_remainders_single_word_divisor=int(mw.group(3)))
         log("[%s] path labels at W=64: %d recorded divisions re-evaluated by the KnuthD model, %d take add-back, %d have a maxed estimate, %d a 3-by-2 correction, %d SPEC-DRIFT" % (prop, ev_, ab, qm, co, drift)
             + ("; %d limb divisions: %d with a first, %d with the second 2-by-1 correction" % (lb, c1, c2) if ml else "")
-            + ("; %s add-backs visible in the top limb only" % mt.group(1) if mt else ""))
+            + ("; %s add-backs visible in the top limb only" % mt.group(1) if mt else "")
+            + ("; %s wide remainders (%s with add-back, %s single-word divisors)" % mw.groups() if mw else ""))
         g, d_ = parse_states(out)
         totals["states"] += d_; totals["transitions"] += g
     for rspec, fut in r1_futs:
